@@ -282,6 +282,36 @@ def run(tier, seed, replay=None):
             dist["extreme scales:" + kind_] = dist.get("extreme scales:" + kind_, 0) + 1
         except Exception as ex:
             V.fail("extreme core scales: %s raises %s" % (kind_, type(ex).__name__), dict(desc, exc=str(ex)[:200]))
+    # ---- Model/CoreGrad.v against autograd: the gradient of (w * x.full()).sum() w.r.t. each core (torchtt.grad.watch / grad.grad, and plain
+    # Tensor.backward) on integer trains and integer weights equals core_grad exactly - the function theorem C15_weighted_sum_core_grad is about
+    cg_cases, cg_meta = [], []
+    for j in range(16 if tier == "quick" else 160):
+        d = rng.choice([1, 2, 3, 4]); N = [rng.choice([1, 2, 3]) for _ in range(d)]
+        xv = tt(rng, N); x_t = xv.impl([], torch.float64)
+        x_t = torchtt.TT([c.clone() for c in x_t.cores])
+        wv = np.array([rng.randint(-2, 2) for _ in range(int(np.prod(N)))], dtype=np.float64).reshape(N)
+        k_ = rng.randrange(d)
+        try:
+            if j % 2 == 0:
+                torchtt.grad.watch(x_t); g_ = torchtt.grad.grad((x_t.full() * torch.tensor(wv)).sum(), x_t)[k_]
+            else:
+                for c in x_t.cores: c.requires_grad_(True)
+                (x_t.full() * torch.tensor(wv)).sum().backward(); g_ = x_t.cores[k_].grad
+            cs_ = "[" + ";".join("(%d%%nat,%d%%nat,%d%%nat,%s)" % (c.shape[0], c.shape[1], c.shape[2], coqrun.zlist(c.detach().numpy().reshape(-1))) for c in x_t.cores) + "]"
+            cg_cases.append("[check_core_grad (R:=Z) %s %d %s %s]" % (cs_, k_, coqrun.zlist(wv.reshape(-1)), coqrun.zlist(g_.detach().numpy().reshape(-1))))
+            cg_meta.append({"family": "core gradient vs Model/CoreGrad.v", "N": N, "R": [int(r) for r in x_t.R], "core": k_, "via": "grad.grad" if j % 2 == 0 else "backward"})
+        except Exception as ex:
+            V.fail("core gradient raises %s" % type(ex).__name__, {"N": N, "core": k_, "exc": str(ex)[:200]})
+    n_cg = 0
+    if ok_make and cg_cases:
+        try:
+            codes = coqrun.eval_nat_lists("C15_cg", "From TT Require Import RingSig Instances Core CoreGrad.", "", cg_cases, shard=40)
+            for dsc, c in zip(cg_meta, codes):
+                if c != [0]: V.fail("correspondence(model/impl): autograd's gradient w.r.t. a core differs from Model/CoreGrad.v", dict(dsc, model_code=c, expr=cg_cases[cg_meta.index(dsc)][:1200]))
+                else: n_cg += 1
+        except Exception as ex:
+            V.fail("core gradient correspondence: the model could not be evaluated", {"exc": str(ex)[:300]}, failing_input=False)
+    dist["core gradient = Model/CoreGrad.v (exact)"] = n_cg
     n_model = 0
     if ok_make and mcases:
         codes = coqrun.eval_codes("C15_DZ", "DZ", mcases, fn="check_model")
